@@ -32,6 +32,7 @@ inductive Entry
   | m2mRemove      -- Set.remove_m2m          (SessionCache.flush only)
   | m2mAdd         -- Set.add_m2m
   | bulkDelete     -- Query.delete(bulk=True)
+  | rawConn        -- Database.get_connection(): user code writes on the raw DB-API connection it returns
   deriving DecidableEq, Repr, Inhabited
 
 /-- can be called by user code outside `SessionCache.flush` (`db.execute`, `db.insert`, `obj.flush()`, `q.delete(bulk=True)`) -/
